@@ -166,7 +166,10 @@ Host == "host"      \* the OS the embedding application supplied
 Real == "real"      \* os.NewSimpleOS: the process's real operating system
 None == "none"      \* no OS recorded (nil field / no context value)
 
-Sources == {"withos", "ctx"}                      \* risor.WithOS option / os.WithOS(ctx, ..)
+\* risor.WithOS option / os.WithOS(ctx, ..) / the same after the VM ran once with no OS at all (plain context):
+\* nothing of that first run may stick to the VM
+Sources == {"withos", "ctx", "ctxwarm"}
+CtxSources == {"ctx", "ctxwarm"}
 SpawnKinds  == {"go", "spawn"}                    \* vm.cloneCallAsync
 HClonekinds == {"clone", "cclone"}                \* host: vm.Clone() + Call(hostCtx, ..) after Run / from a host callback
 ImportKinds == {"import_body", "import_fn"}       \* module body at import time / function of an imported module
@@ -183,7 +186,7 @@ VARIABLES src,       \* how the host supplied its OS
           observed   \* OS seen by the most recent builtin call ("none" before the first)
 pvars == <<src, stack, pending, observed>>
 
-HostCtx == IF src = "ctx" THEN Host ELSE None
+HostCtx == IF src \in CtxSources THEN Host ELSE None
 BaseVM  == IF src = "withos" THEN Host ELSE None
 Top     == stack[Len(stack)]
 Path    == [i \in 1..(Len(stack) - 1) |-> stack[i + 1].kind]
@@ -201,7 +204,7 @@ CanCall         == stack # <<>> /\ ~pending
 StartWith(s) == /\ CanStart
                 /\ src' = s
                 /\ LET bvm == IF s = "withos" THEN Host ELSE None
-                       hc  == IF s = "ctx" THEN Host ELSE None
+                       hc  == IF s \in CtxSources THEN Host ELSE None
                    IN stack' = <<[kind |-> "top", vmos |-> bvm, ctxos |-> InitContext(bvm, hc)]>>
                 /\ UNCHANGED <<pending, observed>>
 Start == StartWith(src)
